@@ -19,10 +19,10 @@ PROP = "C12"
 LEVEL = "exploration"
 RULE = ("case = one generated netlist; every hierarchical wire and every hierarchical pin (capped at 400 starts per netlist "
         "in the quick tier) is a start point for get_hwires/get_hcables (ALL, INSIDE, OUTSIDE, BOTH), get_hpins(hwire), "
-        "get_hports(hwire); distinct = shape hash; non-trivial = some net class spans >=2 hierarchy levels and some start "
+        "get_hports(hwire); then pins are moved between wires (two rounds) and every question is asked again in the same process; distinct = shape hash; non-trivial = some net class spans >=2 hierarchy levels and some start "
         "wire touches only instance pins")
 ASSUMPTIONS = ["net classes come from a union-find over (path, wire) pairs joined where an outer pin's inner pin has a wire"]
-REQUIRED = {"starts_hwire": 2000, "starts_hpin": 4000, "relations_checked": 40000}
+REQUIRED = {"starts_hwire": 2000, "starts_hpin": 4000, "relations_checked": 40000, "netlists_requeried_after_rewire": 50}
 PROBES = {}
 KNOWN_KEYS = set()
 
@@ -66,15 +66,55 @@ def check(ctx, key, what, got, want, st):
     return False
 
 
+def rewire(n, rng):
+    """Moves pins between wires of their definition (disconnect, connect elsewhere, connect open pins)."""
+    moved = 0
+    for l in n.libraries:
+        for d in l.definitions:
+            wires = [w for c in d.cables for w in c.wires]
+            if not wires:
+                continue
+            pins = [p for port in d.ports for p in port.pins] + [op for ch in d.children for op in ch.pins]
+            for p in pins:
+                x = rng.random()
+                if x < 0.25:
+                    if p.wire is not None:
+                        p.wire.disconnect_pin(p)
+                        moved += 1
+                    if x < 0.18:
+                        rng.choice(wires).connect_pin(p)
+                        moved += 1
+    return moved
+
+
 def run_case(ctx, i, rng):
     n = gen_ir.generate(rng, profile="edif" if i % 2 else "any", share=0.6, ndefs=rng.randint(3, 9),
                         max_children=rng.choice([2, 3, 4]))
     st = gen_ir.shape_stats(n)
+    r = check_netlist(ctx, i, rng, n, st, "")
+    if r is None:
+        return
+    # the same questions again, in the same process, after the netlist was rewired: answers must follow the
+    # netlist as it is now (nothing remembered from earlier queries)
+    for round_ in range(2):
+        moved = rewire(n, rng)
+        ctx.count("rewired_pins", moved)
+        r2 = check_netlist(ctx, i, rng, n, st, "after-rewire:")
+        if r2 is None:
+            return
+        ctx.count("netlists_requeried_after_rewire")
+    ctx.fingerprint(r[0], r[1])
+    if i < 3:
+        ctx.sample(r[2])
+
+
+def check_netlist(ctx, i, rng, n, st, phase):
+    """All start points of one netlist state; returns None after a violation / discard, else (fingerprint, nontrivial, sample)."""
     hwires = list(sdn.get_hwires(n, recursive=True))
     hpins = list(sdn.get_hpins(n, recursive=True))
     if len(hwires) + len(hpins) > 6000:
         ctx.count("discarded_too_large")
-        return
+        return None
     uf = UFD()
     wseq = {}
     for hw in hwires:
@@ -108,19 +148,19 @@ def run_case(ctx, i, rng):
             if ow is not None and ow.cable is not None:
                 outer = ids(s[:-3] + (ow.cable, ow))
         for sel, exp in ((S.INSIDE, {inner} - {None}), (S.OUTSIDE, {outer} - {None}), (S.BOTH, {inner, outer} - {None})):
-            if check(ctx, "hwires-from-hpin:%s" % sel.name, "get_hwires(hpin, %s)" % sel.name, sdn.get_hwires(hp, selection=sel), exp, st):
-                return
-            if check(ctx, "hcables-from-hpin:%s" % sel.name, "get_hcables(hpin, %s)" % sel.name, sdn.get_hcables(hp, selection=sel),
+            if check(ctx, phase + "hwires-from-hpin:%s" % sel.name, "get_hwires(hpin, %s)" % sel.name, sdn.get_hwires(hp, selection=sel), exp, st):
+                return None
+            if check(ctx, phase + "hcables-from-hpin:%s" % sel.name, "get_hcables(hpin, %s)" % sel.name, sdn.get_hcables(hp, selection=sel),
                      set(x[:-1] for x in exp), st):
-                return
+                return None
         expall = set()
         for x in (inner, outer):
             if x is not None:
                 expall |= classes[uf.find(x)]
-        if check(ctx, "hwires-from-hpin:ALL", "get_hwires(hpin, ALL)", sdn.get_hwires(hp, selection=S.ALL), expall, st):
-            return
-        if check(ctx, "hcables-from-hpin:ALL", "get_hcables(hpin, ALL)", sdn.get_hcables(hp, selection=S.ALL), set(x[:-1] for x in expall), st):
-            return
+        if check(ctx, phase + "hwires-from-hpin:ALL", "get_hwires(hpin, ALL)", sdn.get_hwires(hp, selection=S.ALL), expall, st):
+            return None
+        if check(ctx, phase + "hcables-from-hpin:ALL", "get_hcables(hpin, ALL)", sdn.get_hcables(hp, selection=S.ALL), set(x[:-1] for x in expall), st):
+            return None
     # starts: hierarchical wires
     for hw in (hwires if len(hwires) <= cap else rng.sample(hwires, cap)):
         ctx.count("starts_hwire")
@@ -137,19 +177,19 @@ def run_case(ctx, i, rng):
                 exp.add(ids(s[:-2] + (pin.port, pin)))
         if len(w.pins) and not has_port_pin:
             only_inst = True
-        if check(ctx, "hpins-from-hwire", "get_hpins(hwire)", sdn.get_hpins(hw), exp, st):
-            return
-        if check(ctx, "hports-from-hwire", "get_hports(hwire)", sdn.get_hports(hw), set(x[:-1] for x in exp), st):
-            return
+        if check(ctx, phase + "hpins-from-hwire", "get_hpins(hwire)", sdn.get_hpins(hw), exp, st):
+            return None
+        if check(ctx, phase + "hports-from-hwire", "get_hports(hwire)", sdn.get_hports(hw), set(x[:-1] for x in exp), st):
+            return None
         cls = classes[uf.find(k)]
         tag = "instance-pins-only" if (len(w.pins) and not has_port_pin) else "with-port-pin"
-        if check(ctx, "hwires-from-hwire:ALL:%s" % tag, "get_hwires(hwire, ALL) [%s]" % tag, sdn.get_hwires(hw, selection=S.ALL), cls, st):
-            return
-        if check(ctx, "hcables-from-hwire:ALL:%s" % tag, "get_hcables(hwire, ALL) [%s]" % tag, sdn.get_hcables(hw, selection=S.ALL),
+        if check(ctx, phase + "hwires-from-hwire:ALL:%s" % tag, "get_hwires(hwire, ALL) [%s]" % tag, sdn.get_hwires(hw, selection=S.ALL), cls, st):
+            return None
+        if check(ctx, phase + "hcables-from-hwire:ALL:%s" % tag, "get_hcables(hwire, ALL) [%s]" % tag, sdn.get_hcables(hw, selection=S.ALL),
                  set(x[:-1] for x in cls), st):
-            return
-        if check(ctx, "hwires-from-hwire:INSIDE", "get_hwires(hwire, INSIDE)", sdn.get_hwires(hw, selection=S.INSIDE), {k}, st):
-            return
+            return None
+        if check(ctx, phase + "hwires-from-hwire:INSIDE", "get_hwires(hwire, INSIDE)", sdn.get_hwires(hw, selection=S.INSIDE), {k}, st):
+            return None
     # starts: hierarchical cables and ports (union over their wires / pins)
     hcables = list(sdn.get_hcables(n, recursive=True))
     hports = list(sdn.get_hports(n, recursive=True))
@@ -159,8 +199,8 @@ def run_case(ctx, i, rng):
         exp = set()
         for w in s[-1].wires:
             exp |= classes[uf.find(ids(s + (w,)))]
-        if check(ctx, "hwires-from-hcable:ALL", "get_hwires(hcable, ALL)", sdn.get_hwires(hc, selection=S.ALL), exp, st):
-            return
+        if check(ctx, phase + "hwires-from-hcable:ALL", "get_hwires(hcable, ALL)", sdn.get_hwires(hc, selection=S.ALL), exp, st):
+            return None
     for hp in (hports if len(hports) <= cap // 4 else rng.sample(hports, cap // 4)):
         ctx.count("starts_hport")
         s = seq(hp)
@@ -174,11 +214,10 @@ def run_case(ctx, i, rng):
                 ow = inst.pins[pin].wire
                 if ow is not None and ow.cable is not None:
                     exp |= classes[uf.find(ids(s[:-2] + (ow.cable, ow)))]
-        if check(ctx, "hwires-from-hport:ALL", "get_hwires(hport, ALL)", sdn.get_hwires(hp, selection=S.ALL), exp, st):
-            return
+        if check(ctx, phase + "hwires-from-hport:ALL", "get_hwires(hport, ALL)", sdn.get_hwires(hp, selection=S.ALL), exp, st):
+            return None
     # every member of a class gives the same ALL answer (follows from the above when all starts are checked)
     ctx.count("net_classes", len(classes))
-    ctx.fingerprint((st, sorted(len(c) for c in classes.values())), spans and only_inst)
-    if i < 3:
-        ctx.sample({"shape": st, "hwires": len(hwires), "hpins": len(hpins), "net_classes": len(classes),
-                    "largest_class": max([len(c) for c in classes.values()] or [0])})
+    return ((st, sorted(len(c) for c in classes.values())), spans and only_inst,
+            {"shape": st, "hwires": len(hwires), "hpins": len(hpins), "net_classes": len(classes),
+             "largest_class": max([len(c) for c in classes.values()] or [0])})
